@@ -213,7 +213,24 @@ func c18Exec(raw json.RawMessage) interface{} {
 	return obs
 }
 
+// c18GenStress: three members, timeouts of the order of one etcd round trip, many goroutines —
+// aims the deadline at the first (key-creating) request of the etcd lock.
+func c18GenStress(r *verifh.Rand) interface{} {
+	in := c18Input{Members: 3, TimeoutMs: r.PickInt(8, 15, 15, 30)}
+	for g, ng := 0, r.Range(3, 7); g < ng; g++ {
+		x := c18G{Member: r.Intn(3)}
+		for a, na := 0, r.Range(2, 5); a < na; a++ {
+			x.Attempts = append(x.Attempts, c18Attempt{HoldUs: r.PickInt(0, 200, 3000, 9000), GapUs: r.Range(0, 2000)})
+		}
+		in.Gs = append(in.Gs, x)
+	}
+	return in
+}
+
 func c18Gen(r *verifh.Rand, i int) interface{} {
+	if r.Bool(1, 4) {
+		return c18GenStress(r)
+	}
 	in := c18Input{}
 	in.Members = r.PickInt(1, 2, 2, 3, 3)
 	in.TimeoutMs = r.PickInt(15, 30, 60, 150, 2000)
